@@ -8,7 +8,7 @@ from cgsim import gen as G, ref
 from cgsim.core import fp, Skip, state_digest
 
 ID = "C03"
-QUICK = dict(worlds=16, runs=250, seconds=25)
+QUICK = dict(worlds=16, runs=250, seconds=15)
 THOROUGH = dict(worlds=256, runs=1500, seconds=30)
 RULE = ("seeded lint-clean circuits with legal Verilog names (plain / escaped / synthetic look-alikes), constants, "
         "blackbox instances with connected and unconnected pins x behavioral in {False, True} x direct / file path; "
